@@ -837,7 +837,7 @@ impl Bindgen for FunctionBindgen<'_, '_> {
                 let vec = operands[0].clone();
                 let target = operands[1].clone();
                 let size = self.r#gen.sizes.size(element);
-                self.push_str(&format!("for (i, e) in {vec}.into_iter().enumerate() {{\n",));
+                self.push_str(&format!("for (i, e) in ({vec}).into_iter().enumerate() {{\n",));
                 self.push_str(&format!(
                     "let base = {target}.add(i * {});\n",
                     size.format(POINTER_SIZE_EXPRESSION)
@@ -1381,9 +1381,12 @@ impl Bindgen for FunctionBindgen<'_, '_> {
                 size,
                 id: _,
             } => {
-                for i in 0..(*size as usize) {
-                    results.push(format!("{}[{i}]", operands[0]));
-                }
+                // Destructure instead of indexing: elements that are not `Copy`
+                // cannot be moved out of an array by index.
+                let tmp = self.tmp();
+                let names: Vec<String> = (0..*size).map(|i| format!("elem{tmp}_{i}")).collect();
+                uwriteln!(self.src, "let [{}] = {};", names.join(", "), operands[0]);
+                results.extend(names);
             }
             Instruction::FixedLengthListLiftFromMemory {
                 element,
